@@ -83,4 +83,18 @@ TEXT["C08"] = {
     "note": COMMON_NOTE + "The byte-level parser/printer model is not yet in Lean (partial): acceptance/rejection of malformed text and parser totality are not yet decided by this check.",
     "technique": "Lean 4 theorems (mutual induction over the model AST) + model-equality correspondence in exact rationals",
 }
+TEXT["C10"] = {
+    "level": "Kernel-checked: separators never contribute to an error's symptom vector, so a decomposed error denotes the XOR of its components; with the Fourier-factor laws of C03 this makes "
+             "'same distribution read without separators' decidable by the same exact-rational oracle. Correspondence: every decomposed model returned over the option matrix is judged by that oracle "
+             "and by the structural checker (<= 2 detectors per component unless failures are ignored; with remnant blocking every component of a composite error occurs elsewhere).",
+    "note": COMMON_NOTE + "One genuine defect fixed (wrong frame changes from the local decomposition), one recorded as known finding D27 (zero-probability sibling used as a component under remnant blocking).",
+    "technique": "Lean 4 theorem (separator-free semantics) + exact-rational distribution oracle and structural checker correspondence",
+}
+TEXT["C16"] = {
+    "level": "Kernel-checked: XOR accumulation of symptom vectors is commutative and associative, firing an error twice cancels, duplicate targets cancel — so 'XOR of the fired errors' is well defined "
+             "independently of visiting order and stripe layout; flattening (repeat/shift) is the executor of C08. Correspondence under ASan+UBSan: per-shot oracle on the three files written by the sampler, "
+             "and bit-for-bit replay of the recorded errors through every input format.",
+    "note": COMMON_NOTE + "Only a subset of the shots of each run is sent to the oracle (first, stripe boundaries, last); the replay comparison covers all shots.",
+    "technique": "Lean 4 theorems (XOR fold laws) + per-shot oracle correspondence and replay equality under sanitizers",
+}
 NOT_CLAIMED = {}
